@@ -114,6 +114,10 @@ pub fn values(rc: &RootCtx, seed: u64, n: usize) -> Vec<Val> {
 /// for a handful of roots: used by the monitors whose cost is linear in the
 /// stream length (C01, C02, C03, C06, C07, C08).
 pub fn big_values(rc: &RootCtx) -> Vec<Val> {
+    if cfg!(miri) {
+        // four orders of magnitude slower: a 70 000-element value would outlast the watchdog
+        return vec![];
+    }
     let seq = |n: usize, f: &dyn Fn(usize) -> Val| Val::Seq((0..n).map(f).collect());
     match rc.name {
         "Vec<u8>" => vec![seq(70_001, &|i| Val::P((i % 251) as u128)), seq(4096, &|i| Val::P((i % 7) as u128)), seq(8192 - 53, &|i| Val::P((i % 5) as u128))],
